@@ -58,41 +58,57 @@ def r17_1(ctx):
     o = Origins(f)
     helpers = quoting_helpers(prog, f.crate)
     n_string_args = 0
-    for bb, t in f.calls():
-        if mname(t) != "Arguments::new":
-            continue
-        node = o._def((bb, "term", "call", t), 0, ())
-        try:
-            ps = pieces(node)
-        except FmtError as e:
-            ctx.bad("format-decodable", f.loc(bb), "a format! in to_yaml_one_liner is not decodable: %s" % e)
-            continue
-        for p in ps:
-            if isinstance(p, str):
+    for body in [f] + list(prog.closures_of(f)):
+        ob = o if body is f else Origins(body)
+        for bb, t in body.calls():
+            if mname(t) != "Arguments::new":
                 continue
-            tree = p[1]
-            src = None
-            label = None
-            for n in tree.walk():
-                if n.kind == "field" and n.a in STRING_SOURCES:
-                    src = n.a
-            if src is None:
+            node = ob._def((bb, "term", "call", t), 0, ())
+            try:
+                ps = pieces(node)
+            except FmtError as e:
+                ctx.bad("format-decodable", body.loc(bb), "a format! in to_yaml_one_liner is not decodable: %s" % e)
                 continue
-            if src == "environment":
-                # key or value of the map item
-                comp = None
-                for n in tree.walk():
-                    if n.kind == "field" and n.a in ("0", "1") and n.kids and n.kids[0].kind == "field" and n.kids[0].a == "0" and n.kids[0].kids and n.kids[0].kids[0].kind == "variant":
-                        comp = n.a
-                label = "environment-" + ("key" if comp == "0" else "value" if comp == "1" else "item")
-            else:
-                label = "wait.path"
-            n_string_args += 1
-            how = _sanitised(prog, f, tree, helpers)
-            ctx.check(how is not None, "quoted:" + label, f.loc(bb),
-                      "%s is written %s" % (label, how),
-                      "%s (free text) is interpolated into the one-line YAML with plain Display, also inside literal quotes: a value containing "
-                      "`\"`, `\\`, `: `, `#`, `{`, `,` or leading/trailing spaces does not parse back to itself" % label)
+            for p in ps:
+                if isinstance(p, str):
+                    continue
+                tree = p[1]
+                src = None
+                label = None
+                if body is f:
+                    # per-item renderings produced by a local closure (`.iter().map(|(k, v)| format!(..))`) are checked inside that closure
+                    if any(n.kind == "call" and method_name(n.a) == "Iterator::map" for n in tree.walk()) and \
+                            any(n.kind == "agg" and isinstance(n.a, tuple) and str(n.a[0]).startswith("closure ") for n in tree.walk()):
+                        continue
+                    for n in tree.walk():
+                        if n.kind == "field" and n.a in STRING_SOURCES:
+                            src = n.a
+                    if src is None:
+                        continue
+                    if src == "environment":
+                        # key or value of the map item
+                        comp = None
+                        for n in tree.walk():
+                            if n.kind == "field" and n.a in ("0", "1") and n.kids and n.kids[0].kind == "field" and n.kids[0].a == "0" and n.kids[0].kids and n.kids[0].kids[0].kind == "variant":
+                                comp = n.a
+                        label = "environment-" + ("key" if comp == "0" else "value" if comp == "1" else "item")
+                    else:
+                        label = "wait.path"
+                else:
+                    # closure over the (key, value) items of the environment map: the tuple parameter's components are free text
+                    comp = None
+                    for n in tree.walk():
+                        if n.kind == "field" and n.a in ("0", "1") and n.kids and peel(n.kids[0]).kind == "arg" and peel(n.kids[0]).a == 2:
+                            comp = n.a
+                    if comp is None:
+                        continue
+                    label = "environment-" + ("key" if comp == "0" else "value")
+                n_string_args += 1
+                how = _sanitised(prog, body, tree, helpers)
+                ctx.check(how is not None, "quoted:" + label, body.loc(bb),
+                          "%s is written %s" % (label, how),
+                          "%s (free text) is interpolated into the one-line YAML with plain Display, also inside literal quotes: a value containing "
+                          "`\"`, `\\`, `: `, `#`, `{`, `,` or leading/trailing spaces does not parse back to itself" % label)
     ctx.check(n_string_args >= 3, "string-args-found", f.where(), "environment key, value and wait.path interpolations found (%d)" % n_string_args,
               "only %d free-text interpolations found in to_yaml_one_liner (3 expected: environment key, value, wait.path)" % n_string_args)
     ctx.note("quoting helpers recognised: %s" % sorted(h.split("::")[-1] for h in helpers))
